@@ -50,7 +50,7 @@ CONFIGS = {
 EVENTS = (
     "raw_settings", "raw_settings_by_index", "settings", "settings_by_index", "derived", "settings_map",
     "c2http_aesrand", "c2http_rsa", "c2http_aeshmac", "client_dryrun", "profile", "transform_get", "transform_post",
-    "response_roundtrip", "iter_recover_http", "mutate", "version", "transform_norequest",
+    "response_roundtrip", "iter_recover_http", "mutate", "version", "transform_norequest", "client_dryrun_defaults",
 )
 
 
@@ -137,8 +137,26 @@ def do_event(cfg, ev, seed):
                 cl = HttpBeaconClient()
                 cl.run(cfg, dry_run=True, beacon_id=1234, pid=4242, user="user", computer="PC", process="p.exe", internal_ip="10.0.0.9", arch="x64")
                 return plain([cl.task_url, cl.callback_url, cl.get_verb, cl.submit_verb, cl.user_agent, cl.host_header, cl.sleeptime, cl.jitter, cl.metadata.dumps(), cl.base_url, tr_plain(cl.c2http.transform_response)])
+        if ev == "client_dryrun_defaults":
+            # everything the caller may leave out is left out (names, process, address are then drawn by the client,
+            # reproducibly per beacon id)
+            out = []
+            for bid in (1234, 2, 4, 6, 8, 10, 12, 14):
+                with Seams():
+                    cl = HttpBeaconClient()
+                    cl.run(cfg, dry_run=True, beacon_id=bid)
+                    out.append(plain([cl.metadata.dumps(), cl.task_url, cl.user_agent]))
+            return out
         if ev == "profile":
-            return c2profile.C2Profile.from_beacon_config(cfg).as_text()
+            prof = c2profile.C2Profile.from_beacon_config(cfg)
+            text = prof.as_text()
+            # the caller owns the generated profile: it customises it afterwards
+            prof.set_option("sleeptime", "31337")
+            prof.set_config_block("http_get", c2profile.HttpGetBlock(uri="/customised"))
+            for v in prof.properties.values():
+                if isinstance(v, list) and v:
+                    v.pop()
+            return text
         if ev in ("transform_get", "transform_post", "response_roundtrip", "iter_recover_http"):
             h = c2.C2Http(cfg, aes_rand=aes_rand, rsa_private_key=priv)
             real = random.getrandbits
